@@ -200,11 +200,12 @@ pub fn cmd_worker(args: &[String]) -> i32 {
                 Some(v2) if v2.class == v.class => (cfg2, ops2, v2),
                 _ => (r.cfg.clone(), r.ops.clone(), v.clone()),
             };
-            let path = format!("{}/replays/{}-{}-{}.json", verif_home(), prop, base, k - stride);
+            let path = format!("{}/replays/{}-{}-{}-{}.json", verif_home(), prop, crate::seam::FLAVOUR, base, k - stride);
             let _ = std::fs::create_dir_all(format!("{}/replays", verif_home()));
             let file = runner::replay_file_json(&cfg2, &ops2, &v2, &r.stats, json!({"original_ops": r.ops.len(), "shrink_candidates_tried": tried}));
             std::fs::write(&path, serde_json::to_string_pretty(&file).unwrap()).expect("cannot write replay file");
             violations.push(json!({"replay": path, "class": v2.class, "detail": v2.detail, "check": v2.check, "run_seed": seed}));
+            samples.push(json!({"run_seed": seed, "violating": true, "config": cfg2.to_json(), "ops": op_samples(&ops2)}));
             break;
         }
         n_runs += 1;
@@ -405,7 +406,8 @@ pub fn cmd_check(args: &[String]) -> i32 {
         "exhaustive": false,
     }));
     merged.insert("assumptions".into(), json!(assumptions()));
-    let epath = format!("{}/evidence/{}.json", verif_home(), prop);
+    let suffix = arg(args, "--evidence-suffix").unwrap_or("");
+    let epath = format!("{}/evidence/{}{}.json", verif_home(), prop, suffix);
     let _ = std::fs::create_dir_all(format!("{}/evidence", verif_home()));
     std::fs::write(&epath, serde_json::to_string_pretty(&Value::Object(merged)).unwrap()).expect("cannot write evidence");
     println!("runs={} ops={} nontrivial_distinct={} states={} inconclusive={} wall={:.1}s evidence={}", n_runs, n_ops, nontrivial.len(), states.len(), inconclusive.values().sum::<u64>(), wall, epath);
